@@ -55,7 +55,7 @@ def safe(st):
 
 
 def pre_transfer(i):
-    return safe(i) and i["src_has"] == "Y" and i["src_disk"] == "good" and i["req"] == "pending" and not (i["dst_row"] is not None and i["dst_row"][1] == "N")
+    return safe(i) and i["src_has"] == "Y" and i["src_disk"] == "good" and i["req"] == "pending" and not (i["dst_row"] is not None and i["dst_row"][1] == "N" and i["dst_row"][0] != "N")
 
 
 def one_case(ctx, base, i, e, mode, terms, keep):
